@@ -115,6 +115,21 @@ def playback_bytes(harness):
 _replay_built = {}
 
 
+def ensure_replay_fn(name):
+    """Make sure src/bin/replay.rs holds the replay-only function `name` (regenerate it with the extras when it does not)."""
+    path = os.path.join(KDIR, 'src', 'bin', 'replay.rs')
+    try:
+        have = ('fn %s(' % name) in open(path).read()
+    except OSError:
+        have = False
+    point_manifest_at_repo(KDIR)
+    shutil.copyfile(os.path.join(REPO, 'Cargo.lock'), os.path.join(KDIR, 'Cargo.lock'))
+    if not have:
+        os.makedirs(os.path.dirname(path), exist_ok=True)
+        gen.write_replay(path, [])
+        _replay_built.clear()
+
+
 def native_replay(harness, vals, release=False):
     """Run the same harness body natively on the concrete inputs. Returns the REPLAY line."""
     key = 'release' if release else 'dev'
